@@ -49,6 +49,10 @@ def parse_log(log):
                     r['failed'].append({'check': cid, 'status': status, 'description': desc, 'location': loc})
                 else:
                     r['ignored_side_checks'] += 1
+        m = re.search(r'size of program expression: (\d+) steps', body)
+        r['steps'] = int(m.group(1)) if m else 0
+        m = re.search(r'Generated (\d+) VCC\(s\), (\d+) remaining', body)
+        r['vccs'] = int(m.group(1)) if m else 0
         m = re.search(r'VERIFICATION:- (\w+)', body)
         if m: r['status'] = m.group(1)
         m = re.search(r'Verification Time: ([\d.]+)s', body)
@@ -127,4 +131,5 @@ def decide(outcome, prop, results, expect_cover=True):
         else:
             outcome.inconclusive.append('harness %s: %s %s' % (h, r['status'], r.get('note', '')[:300]))
             per[h] = r['status']
-    return {'harnesses': per, 'cbmc_checks_decided': checks, 'harnesses_decided': decided, 'harnesses_nonvacuous': nontrivial, 'kani_verification_s': round(solver_s, 1)}
+    return {'states': max(1, sum(r.get('steps', 0) for r in results.values())), 'transitions': max(1, sum(r.get('vccs', 0) for r in results.values())),
+            'harnesses': per, 'cbmc_checks_decided': checks, 'harnesses_decided': decided, 'harnesses_nonvacuous': nontrivial, 'kani_verification_s': round(solver_s, 1)}
